@@ -107,6 +107,13 @@ C07_GivesUp ==
   [][ (pc = "run" /\ lastin'.k \in {"fail", "stray"} /\ hist' # hist /\ retry = MaxRetries - 1)
         => pc' = "failed" ]_ovars
 
+\* C04: the retry budget is for CONSECUTIVE failed receives: a receive that delivers what the
+\* role waits for (a DATA packet to the receiver, an ACK inside the window to the sender) starts
+\* the count afresh, so only MaxRetries failures in a row can end a transfer
+C04_BudgetIsForConsecutiveFailures ==
+  [][ (pc = "run" /\ pc' = "run" /\ hist' # hist /\
+        ((Receiving /\ lastin'.k = "data") \/ (Sending /\ lastin'.k = "ack" /\ InWindow(lastin'.n)))) => retry' = 0 ]_ovars
+
 \* C02: the receiver acknowledges only what it has accepted in sequence and stored
 C02_AckOnlyInSeq ==
   [][ (Receiving /\ out = None /\ out' # None) =>
